@@ -227,8 +227,9 @@ class Ctx(object):
         d = os.path.join(VERIF, "replays", self.prop)
         os.makedirs(d, exist_ok=True)
         p = os.path.join(d, h + ".json")
-        with open(p, "w") as f:
-            json.dump(rec, f, indent=1, sort_keys=True)
+        if len(self.violations) < 40:          # later ones are counted, not written
+            with open(p, "w") as f:
+                json.dump(rec, f, indent=1, sort_keys=True)
         if len(self.violations) < 25:
             print("VIOLATION property=%s replay=%s clause=%s" % (self.prop, p, clause))
             sys.stdout.flush()
